@@ -18,30 +18,45 @@ PROPERTY = "C03"
 LEVEL = "proof"
 LEVEL_TEXT = ("Lean 4 theorems over a labelled transition system of graph_walker.go (all acyclic graphs, closed selections, schedules, "
               "fail-fast on/off, cancellation at any point): a node whose callback was entered has every transitive dependency successfully "
-              "completed; a callback is entered at most once along any run; running commands <= busy workers <= num_workers in the pool model. "
+              "completed; a callback is entered at most once along any run; running commands <= tasks on a worker <= num_workers, in the pool model "
+              "and in every reachable state of the composition walker x tasks with W workers; on the build model (Exec/Build) a label occurs "
+              "at most once in the execution log of one invocation, in both load_outputs modes. "
               "The model is tied to the code by trace inclusion: traces of the real Walker/TaskWorkerPool on generated DAGs must be runs of the "
               "model's step function; a model-independent oracle checks order, single start and overlap on the real traces.")
 LEVEL_NOTE = ("Real schedules are sampled (Go scheduler, zero and random latencies, Gosched), not enumerated; atomicity of onComplete is a mutex in "
-              "the code and an atomic event in the model; the exec-at-most-once clause for load_outputs=minimal (dependency re-runs inside the "
-              "executor) belongs to the build-semantics group; exec.CommandContext refusing a cancelled context is trusted.")
+              "the code and an atomic event in the model; four registered theorems (no_second_wake, no_command_start_under_cancelled_context, "
+              "composed_no_command_start_after_cancel, every_command_needs_a_worker) are one-step unfoldings of a guard; "
+              "exec.CommandContext refusing a cancelled context is trusted.")
 TECHNIQUE = "Lean 4 invariant proofs over an executable LTS + trace-inclusion correspondence with the real walker and worker pool"
 OBLIGATIONS = [
+    # invariants over Reach / ReachW / Build.build (inductive proofs)
     "Grog.C03.started_anc_ok",
     "Grog.C03.wake_only_after_anc_ok",
     "Grog.C03.callback_at_most_once",
-    "Grog.C03.no_second_wake",
     "Grog.C03.running_le_workers",
-    "Grog.C03.no_command_start_under_cancelled_context",
     "Grog.C03.command_only_after_all_dependencies",
+    "Grog.C03.commands_le_workers",
+    "Grog.C03.bounded_runs_are_runs",
+    "Grog.C03.build_executes_each_target_at_most_once",
+    "Grog.C03.build_executes_each_target_at_most_once_minimal",
+    # one-step facts: each merely unfolds a guard of `step` (kept because other proofs and the notes cite them; they carry no
+    # weight on their own - the weight is in the trace-inclusion check that ties the guards to the code)
+    "Grog.C03.no_second_wake",
+    "Grog.C03.no_command_start_under_cancelled_context",
     "Grog.C03.composed_no_command_start_after_cancel",
     "Grog.C03.every_command_needs_a_worker",
+    # arithmetic on the one-line re-run formula (superseded by build_executes_each_target_at_most_once*; kept as the CLI regression's
+    # model side) and its regression witness
     "Grog.C03.exec_at_most_once",
     "Grog.C03.exec_more_than_once_witness_old",
 ]
 ASSUMPTIONS = [
-    "selection closed under dependencies and graph acyclic (CfgOK; discharged by the selection / analysis properties C12, C11)",
+    "selection closed under dependencies and graph acyclic (CfgOK; discharged by the selection / analysis properties C12, C11); the "
+    "selection is a duplicate-free list (c.sel.Nodup) for the worker bound",
     "GetDescendants returns the set of descendants (CfgOK.desc_iff; graph group)",
-    "a callback returns an error wrapping context.Canceled only when the walk context is cancelled (guard of cbReturn .. cancelled)",
+    "a worker goroutine is inside at most one task (guard onWorkers < W of Sys.stepW; worker identities: the list model Grog.Pool); "
+    "tied to the code by the maxCmds oracle on the real pool",
+    "at-most-once in minimal mode: no lost blobs (CasOK), well-formed build (BuildOK), repaired code (rerunOnce, loadFault, minValidate)",
 ]
 
 
